@@ -208,6 +208,8 @@ def _run_check(cid, tier, spec, workdir, tmp, t_start):
         })
         if spec.get("memlimit"):
             env["GOMEMLIMIT"] = spec["memlimit"]
+        if spec.get("rss_limit_mb"):
+            env["VERIF_RSS_LIMIT_MB"] = str(spec["rss_limit_mb"])
         log = open(os.path.join(workdir, "shard-%d.log" % i), "w")
         args = [binary, "-test.run", "^TestCheck$", "-test.timeout", "0", "-test.count", "1"]
         p = subprocess.Popen(args, cwd=workdir, env=env, stdout=log, stderr=subprocess.STDOUT)
